@@ -48,12 +48,17 @@ def _analyze_pending_stub(workflow):
     return _Summary(wrap_int(n))
 
 
+def _some_rows(name):
+    c = cur()
+    return [("key", "detail", "1")] if c.fork(c.fresh(c.fresh_name(name + ".nonempty"), BOOL)) else []
+
+
 FMT_ENV = dict(
     analyze_pending=_analyze_pending_stub,
-    _format_input_rows=lambda s: ty.SeqOf(ty.TupleOf(ty.Str, ty.Str, ty.Str)).fresh(cur().fresh_name("input_rows")),
-    _format_resource_rows=lambda s: ty.SeqOf(ty.TupleOf(ty.Str, ty.Str, ty.Str)).fresh(cur().fresh_name("resource_rows")),
+    _format_input_rows=lambda s: _some_rows("input_rows"),
+    _format_resource_rows=lambda s: _some_rows("resource_rows"),
     _format_table_lines=lambda rows, a, b: ["line"],
-    _format_other_lines=lambda s: ty.SeqOf(ty.Str).fresh(cur().fresh_name("other_lines")),
+    _format_other_lines=lambda s: ["other"] if cur().fork(cur().fresh(cur().fresh_name("other_lines"), BOOL)) else [],
     _format_remedy_lines=lambda s: ["remedy"],
     max=lambda *a, **k: 0,
 )
@@ -121,6 +126,7 @@ class violation_is_error:
                                       if isinstance(self.state, sym.SymOpt) else tm.TRUE)
     may_raise = {}
     ensures = lambda self, result: wrap_bool(tm.Iff(B(result), is_error_t(self)))
+    returns = lambda self: wrap_bool(is_error_t(self))  # callers see the defining term (proved by `ensures`)
     result = ty.Bool
     modifies = []
 
@@ -182,3 +188,343 @@ class report_glob_violations:
     ensures_named = dict(bits_follow_violations=_glob_post, bits_need_a_witness=_glob_post_converse)
     result = ty.FlagOf(ReturnCode)
     modifies = []
+
+
+# ---------------------------------------------------------------- report_unbuilt
+
+
+def _define_glob_ghosts(wf, q):
+    """glob_error_exists / glob_warning_exists := some violation is / is not an error (definitional)."""
+    c = cur()
+    for name, pred in (("glob_error_exists", lambda v: is_error_t(v)), ("glob_warning_exists", lambda v: tm.Not(is_error_t(v)))):
+        g = ghost(wf, name)
+        w = c.decls.const("wf." + name + ".witness", INT)
+        n0 = len(c.pc)
+        vw = q.elem(w)
+        side_w = c.pc[n0:]
+        del c.pc[n0:]
+        c.pc.append(tm.Implies(g, tm.And(tm.Le(tm.mk_int(0), w), tm.Lt(w, q.length), *side_w, pred(vw))))
+        jv = tm.Var("jg", INT)
+        n1 = len(c.pc)
+        vj = q.elem(jv)
+        side_j = c.pc[n1:]
+        del c.pc[n1:]
+        c.pc.append(tm.ForAll([("jg", INT)], tm.Implies(
+            tm.And(tm.Le(tm.mk_int(0), jv), tm.Lt(jv, q.length), *side_j, pred(vj)), g)))
+
+
+_orig_violations = _violations
+
+
+def _violations_with_ghosts(wf):
+    q = _orig_violations(wf)
+    _define_glob_ghosts(wf, q)
+    return q
+
+
+find_glob_violations_assumed.result = lambda self: ty.Make(lambda n: _violations_with_ghosts(self))
+
+report_glob_violations.ensures_named["exported"] = lambda workflow, result: wrap_bool(tm.And(
+    tm.Iff(flag(result, RC.FAILED), ghost(workflow, "glob_error_exists")),
+    tm.Iff(flag(result, RC.WARNING), ghost(workflow, "glob_warning_exists")),
+    only_bits(result, {RC.FAILED, RC.WARNING})))
+# the two trace-free clauses above it talk about the sequence created inside the function: not exported
+report_glob_violations.ensures_named["bits_follow_violations"] = (
+    lambda workflow, result, trace: _glob_post(workflow, result))
+report_glob_violations.ensures_named["bits_need_a_witness"] = (
+    lambda workflow, result, trace: _glob_post_converse(workflow, result))
+
+report_missing_targets.ensures_named = dict(
+    only_warning=lambda result: wrap_bool(only_bits(result, {RC.WARNING})),
+)
+report_missing_targets.ensures = None
+
+
+class _Sched:
+    def __init__(self, name):
+        self.draining = sym.SymBool(cur().fresh(name + ".draining", BOOL))
+
+
+@contract("stepup/core/workflow.py::Workflow.steps", props=[], verify=False,
+          note="iterates over the attached steps in the given state (database read); their number is the ghost nfailed")
+class steps_assumed:
+    modifies = []
+
+    @staticmethod
+    def result(self):
+        class _S(ty.Spec):
+            def fresh(s, name):
+                c = cur()
+                q = ty.SeqOf(ty.Int).fresh(name)
+                c.pc.append(tm.Eq(q.length, ghost(self, "nfailed_attached_steps", INT)))
+                return q
+
+        return _S()
+
+
+def _ru_ghosts(workflow, scheduler):
+    nfailed = ghost(workflow, "nfailed_attached_steps", INT)
+    ntotal = ghost(workflow, "ntotal_pending", INT)
+    return (tm.Gt(nfailed, tm.mk_int(0)), tm.Gt(ntotal, tm.mk_int(0)), B(scheduler.draining),
+            ghost(workflow, "glob_error_exists"), ghost(workflow, "glob_warning_exists"))
+
+
+def _missing_warning(trace):
+    calls = [e for e in trace if e.kind == "call" and e.callee == "_report_missing_targets"]
+    return flag(calls[-1].result, RC.WARNING) if calls else tm.FALSE
+
+
+def _clauses():
+    def failed_sound(workflow, scheduler, result, trace):
+        f, p, d, ge, gw = _ru_ghosts(workflow, scheduler)
+        return wrap_bool(tm.Implies(flag(result, RC.FAILED), tm.Or(f, ge)))
+
+    def failed_steps(workflow, scheduler, result, trace):
+        f, p, d, ge, gw = _ru_ghosts(workflow, scheduler)
+        return wrap_bool(tm.Implies(f, flag(result, RC.FAILED)))
+
+    def glob_error_when_clean(workflow, scheduler, result, trace):
+        # no failed step, not draining, nothing pending, no missing target: a glob error sets the failed bit
+        f, p, d, ge, gw = _ru_ghosts(workflow, scheduler)
+        clean = tm.And(tm.Not(f), tm.Not(d), tm.Not(p), tm.Not(_missing_warning(trace)))
+        return wrap_bool(tm.Implies(tm.And(clean, ge), flag(result, RC.FAILED)))
+
+    def glob_error_otherwise(workflow, scheduler, result, trace):
+        # the property's sentence also covers builds that already went wrong (finding F5)
+        f, p, d, ge, gw = _ru_ghosts(workflow, scheduler)
+        clean = tm.And(tm.Not(f), tm.Not(d), tm.Not(p), tm.Not(_missing_warning(trace)))
+        return wrap_bool(tm.Implies(tm.And(tm.Not(clean), ge), flag(result, RC.FAILED)))
+
+    def pending_bit(workflow, scheduler, result, trace):
+        f, p, d, ge, gw = _ru_ghosts(workflow, scheduler)
+        return wrap_bool(tm.Iff(flag(result, RC.PENDING), tm.And(tm.Not(d), p)))
+
+    def drained_bit(workflow, scheduler, result, trace):
+        f, p, d, ge, gw = _ru_ghosts(workflow, scheduler)
+        return wrap_bool(tm.Iff(flag(result, RC.DRAINED), d))
+
+    def zero_only_if_clean(workflow, scheduler, result, trace):
+        f, p, d, ge, gw = _ru_ghosts(workflow, scheduler)
+        zero = only_bits(result, set())
+        return wrap_bool(tm.Implies(zero, tm.And(tm.Not(f), tm.Not(d), tm.Not(p), tm.Not(ge), tm.Not(gw),
+                                                 tm.Not(_missing_warning(trace)))))
+
+    def never_internal(workflow, scheduler, result, trace):
+        return wrap_bool(tm.And(tm.Not(flag(result, RC.INTERNAL)), tm.Not(flag(result, RC.INTERRUPTED))))
+
+    return dict(failed_bit_sound=failed_sound, failed_bit_for_failed_steps=failed_steps,
+                failed_bit_for_glob_error_in_clean_build=glob_error_when_clean,
+                failed_bit_for_glob_error_in_unclean_build=glob_error_otherwise,
+                pending_bit=pending_bit, drained_bit=drained_bit, zero_only_if_clean=zero_only_if_clean,
+                never_internal_bits=never_internal)
+
+
+@contract("stepup/core/finalize.py::report_unbuilt", props=["C19"])
+class report_unbuilt:
+    args = dict(workflow=_wf, scheduler=ty.Make(_Sched), reporter=ty.Make(Reporter))
+    ensures_named = _clauses()
+    result = ty.FlagOf(ReturnCode)
+    modifies = []
+
+
+from vc.report import replayer  # noqa: E402
+
+
+@replayer("C19/report_unbuilt/post.failed_bit_for_glob_error_in_unclean_build")
+def replay_f5(o):
+    """The counter-model is "a glob error exists and the build is not clean (pending steps)": the committed
+    history specs/replay/F5_glob_error_with_pending.py reaches exactly that state through the Workflow API."""
+    import os
+    import subprocess
+
+    from vc.report import VERIF, model_of
+
+    script = os.path.join(VERIF, "specs", "replay", "F5_glob_error_with_pending.py")
+    r = subprocess.run(["/venv/bin/python", script], cwd=extract.REPO, capture_output=True, text=True,
+                       env={"PYTHONPATH": extract.REPO, "PATH": "/usr/bin:/bin"})
+    m = model_of(o, ["wf.ntotal_pending", "wf.nfailed_attached_steps", "wf.glob_error_exists"]) or {}
+    return dict(reproduced=r.returncode == 1, python=open(script).read(), output=(r.stdout + r.stderr)[-1500:],
+                witness=dict(model=m, history="sub-plan recycled under a glob that matches its output, plus a "
+                                              "step pending on an undeclared input",
+                             claim="glob error exists, failed bit not set"))
+
+
+# ---------------------------------------------------------------- the TUI's translation of the wait status
+
+tuimod = extract.import_module("stepup/core/tui.py")
+
+
+class _SignalStub:
+    class _S:
+        name = "SIGNAL"
+
+    def Signals(self, n):  # noqa: N802
+        return _SignalStub._S()
+
+
+def _tws_post(self, wait_status, result):
+    """A non-negative status keeps every bit the director reported and gains INTERRUPTED iff a terminal signal
+    was received; a negative status (killed by a signal) becomes INTERNAL (plus INTERRUPTED under the same rule)."""
+    r, w = I(result), I(wait_status)
+    sig = tm.Not(self.sig.isnone) if isinstance(self.sig, sym.SymOpt) else tm.mk_bool(self.sig is not None)
+    base = tm.Ite(tm.Lt(w, tm.mk_int(0)), tm.mk_int(RC.INTERNAL.value), w)
+    goals = []
+    k = 1
+    while k < 256:
+        want = sym.bit_t(base, k)
+        if k == RC.INTERRUPTED.value:
+            want = tm.Or(want, sig)
+        goals.append(tm.Iff(sym.bit_t(r, k), want))
+        k <<= 1
+    goals.append(tm.And(tm.Ge(r, tm.mk_int(0)), tm.Lt(r, tm.mk_int(256))))
+    return wrap_bool(tm.And(*goals))
+
+
+@contract("stepup/core/tui.py::TerminalSignalHandler.translate_wait_status", props=["C19"])
+class translate_wait_status:
+    args = dict(self=lambda a: ty.ObjOf(tuimod.TerminalSignalHandler, dict(
+        sig=ty.Opt(ty.Int), reporter_handler=ty.Make(Reporter)), name="TerminalSignalHandler").fresh("self"),
+        wait_status=ty.Int)
+    env = dict(signal=_SignalStub())
+    requires = lambda wait_status: (wait_status > -65) & (wait_status < 256)
+    ensures = _tws_post
+    result = ty.Int
+    modifies = []
+
+
+@structural("C19/scan/serve_returncode", props=["C19"],
+            note="director.serve: an invalid target (GraphError from reconcile_targets) returns FAILED; otherwise the "
+                 "code stored by Builder.finalize is returned")
+def serve_returncode():
+    import ast
+
+    _, node = extract.find_def("stepup/core/director.py", "serve")
+    out = []
+    ok_handler = False
+    for n in ast.walk(node):
+        if isinstance(n, ast.Try):
+            calls = [c for b in n.body for c in ast.walk(b) if isinstance(c, ast.Call)
+                     and isinstance(c.func, ast.Attribute) and c.func.attr == "reconcile_targets"]
+            if not calls:
+                continue
+            for h in n.handlers:
+                if getattr(h.type, "id", "") != "GraphError":
+                    continue
+                rets = [r for b in h.body for r in ast.walk(b) if isinstance(r, ast.Return)]
+                for r in rets:
+                    src = ast.unparse(r.value)
+                    if "ServeResult" in src and "returncode=ReturnCode.FAILED" in src:
+                        ok_handler = True
+    out.append(("scan/serve_returncode/invalid_target_is_failed", ok_handler,
+                "except GraphError around reconcile_targets returns ServeResult(returncode=ReturnCode.FAILED)"))
+    last = [s for s in node.body if isinstance(s, ast.Return)]
+    ok_last = bool(last) and "returncode=handler.builder.returncode" in ast.unparse(last[-1].value)
+    out.append(("scan/serve_returncode/builder_code_is_returned", ok_last, "final return passes handler.builder.returncode"))
+    _, am = extract.find_def("stepup/core/director.py", "async_main")
+    ok_val = any(isinstance(r, ast.Return) and "serve_result.returncode.value" in ast.unparse(r.value) for r in ast.walk(am) if isinstance(r, ast.Return) and r.value is not None)
+    out.append(("scan/serve_returncode/exit_status_is_flag_value", ok_val, "async_main returns serve_result.returncode.value"))
+    return out
+
+
+@structural("C19/scan/pend_blocker_partition", props=["C19"],
+            note="pend_blocker gets exactly one row per pending step: the top-ranked candidate (ROW_NUMBER = 1 per "
+                 "dst_step) and, for steps without any candidate, the RUNNABLE row (complement by NOT IN)")
+def pend_blocker_partition():
+    pend = "stepup/core/pending.py"
+    a = sqlfront.normalize(extract.module_constant(pend, "_INSERT_PEND_BLOCKER"))
+    b = sqlfront.normalize(extract.module_constant(pend, "_INSERT_PEND_BLOCKER_RUNNABLE"))
+    out = [
+        ("scan/pend_blocker_partition/one_per_step", "PARTITION BY dst_step" in a and a.rstrip().endswith("WHERE rn = 1")
+         and "ROW_NUMBER ( ) OVER" in a, "ROW_NUMBER() OVER (PARTITION BY dst_step ...) ... WHERE rn = 1"),
+        ("scan/pend_blocker_partition/complement", "FROM pend_step WHERE i NOT IN ( SELECT dst_step FROM pend_blocker )" in b,
+         "runnable arm inserts exactly the steps that have no row yet"),
+        ("scan/pend_blocker_partition/runnable_targets_same_table", b.startswith("INSERT INTO pend_blocker ( dst_step , kind , src )"),
+         "both statements fill pend_blocker"),
+    ]
+    return out
+
+
+@bounded("pending_partition", props=["C19"],
+         bound="seeded random workflows of up to 12 steps (missing inputs, failed producers, deferred flags, dynamic "
+               "cycles, unsatisfiable resources, optional steps) built through the Workflow API; quick 150, thorough "
+               "2000 graphs; invariant: attributed totals + cyclic bucket = ntotal, every count non-negative")
+def pending_partition(tier, seed):
+    import asyncio
+    import random
+
+    pendmod = extract.import_module("stepup/core/pending.py")
+    sched = extract.import_module("stepup/core/scheduler.py")
+    sq = extract.import_module("stepup/core/sqlite3.py")
+    hashmod = extract.import_module("stepup/core/hash.py")
+    enums = common.enums
+    Step = common.Step
+    rnd = random.Random(seed)
+    n = 150 if tier == "quick" else 2000
+    failures = []
+
+    async def one(k):
+        r = random.Random(rnd.random())
+        with sq.DBSession.open(":memory:") as db:
+            wf = Workflow(db, dir_queue=asyncio.Queue())
+            await wf.initialize()
+            scheduler = sched.Scheduler(wf, db=db)
+            await scheduler.initialize(r.choice([None, "cpu:2", "cpu:1,gpu:1"]))
+            async with db:
+                wf.declare_static_files(wf.root, ["plan.py"])
+                wf.update_file_hashes({"plan.py": hashmod.FileHash(b"d" * 32, 0o644, 1.0, 1, 1)},
+                                      cause=enums.HashUpdateCause.CONFIRMED)
+                wf.define_step(wf.root, "./plan.py", inp_paths=["plan.py"], need=enums.Need.PLAN)
+                plan = wf.find(Step, "./plan.py")
+                plan.set_state(enums.StepState.SUCCEEDED)
+                nsteps = r.randint(1, 12)
+                files = [f"f{i}.txt" for i in range(nsteps + 3)]
+                static = r.sample(files, r.randint(0, 2))
+                if static:
+                    wf.declare_static_files(plan, static)
+                    present = [p for p in static if r.random() < 0.6]
+                    wf.update_file_hashes({p: (hashmod.FileHash(b"s" * 32, 0o644, 1.0, 1, 1) if p in present
+                                               else hashmod.FileHash.unknown()) for p in static},
+                                          cause=enums.HashUpdateCause.CONFIRMED)
+                steps = []
+                for i in range(nsteps):
+                    outs = [f"o{i}.txt"]
+                    inps = r.sample(files + [f"o{j}.txt" for j in range(i)], r.randint(0, 3))
+                    res = r.choice([None, None, {"cpu": r.randint(1, 3)}, {"gpu": 2}])
+                    creator = plan if not steps or r.random() < 0.7 else r.choice(steps)
+                    try:
+                        wf.define_step(creator, f"cmd{i}", inp_paths=inps, out_paths=outs,
+                                       need=r.choice([enums.Need.DEFAULT, enums.Need.DEFAULT, enums.Need.OPTIONAL]),
+                                       resources=res)
+                    except Exception:  # noqa: BLE001
+                        continue
+                    steps.append(wf.find(Step, f"cmd{i}"))
+                for s in steps:
+                    roll = r.random()
+                    if roll < 0.15:
+                        s.set_state(enums.StepState.FAILED)
+                    elif roll < 0.25:
+                        db.execute("UPDATE step SET deferred = 1 WHERE node = ?", (s.i,))
+                scheduler._update_meta_safe()
+                scheduler._update_meta_after()
+                scheduler._update_meta_ready()
+                try:
+                    summary, totals = pendmod._analyze_pending(wf)
+                except Exception as e:  # noqa: BLE001  (the real analysis failed on a reachable workflow)
+                    failures.append(dict(graph=k, seed=seed, error=repr(e)))
+                    return
+            total = sum(totals.values()) + summary.cyclic.nblocked
+            ok = total == summary.ntotal and all(v >= 0 for v in totals.values()) and summary.ntotal >= 0
+            buckets = summary.failed.nblocked + summary.deferred.nblocked + summary.other.nblocked + summary.runnable.nblocked
+            ok = ok and buckets + summary.cyclic.nblocked <= summary.ntotal
+            if not ok:
+                failures.append(dict(graph=k, seed=seed, ntotal=summary.ntotal, attributed=dict(totals),
+                                     cyclic=summary.cyclic.nblocked))
+
+    async def run_all():
+        for k in range(n):
+            await one(k)
+            if len(failures) > 3:
+                break
+
+    asyncio.run(run_all())
+    return dict(evaluations=n, failures=failures)
